@@ -732,7 +732,7 @@ def selectMatch (kind : Kind) (cmp : K → K → Int) (p : K → V → Bool) (t 
     Outcome (Tree K V) :=
   (traverse .vlr (selectVisit kind cmp p) t (.ok nil)).2
 
-abbrev State (K V : Type) := Tree K V × Tree K V
+abbrev State (K V : Type) := Tree K V × Tree K V × Tree K V
 
 /-- one call on the Model -/
 def step (kind : Kind) (cmp : K → K → Int) (eqVal : V → V → Bool) (s : State K V) :
@@ -742,7 +742,8 @@ def step (kind : Kind) (cmp : K → K → Int) (eqVal : V → V → Bool) (s : S
   | .deleteMin => do let (a, r) ← deleteMin kind s.1; pure ((a, s.2), .optKV r)
   | .deleteMax => do let (a, r) ← deleteMax kind s.1; pure ((a, s.2), .optKV r)
   | .deleteAll => pure ((nil, s.2), .unit)
-  | .swap => pure ((s.2, s.1), .unit)
+  | .swap => pure ((s.2.1, s.1, s.2.2), .unit)
+  | .swapC => pure ((s.2.2, s.2.1, s.1), .unit)
   | .size => pure (s, .nat s.1.sz)
   | .isEmpty => pure (s, .bool s.1.isNil)
   | .height => pure (s, .nat (height kind s.1))
@@ -758,17 +759,17 @@ def step (kind : Kind) (cmp : K → K → Int) (eqVal : V → V → Bool) (s : S
   | .all => pure (s, .list (all s.1))
   | .allUntil limit => pure (s, .list (allUntil limit s.1))
   | .traverse o limit => pure (s, .list (traverseCollect o limit s.1))
-  | .equal => pure (s, .bool (equal cmp eqVal s.1 s.2))
+  | .equal => pure (s, .bool (equal cmp eqVal s.1 s.2.1))
   | .equalOther => pure (s, .bool equalOtherKind)
   | .anyMatch p => pure (s, .bool (anyMatch p s.1))
   | .allMatch p => pure (s, .bool (allMatch p s.1))
   | .firstMatch p => pure (s, .optKV (firstMatch p s.1))
   | .selectMatch p => do
     let m ← selectMatch kind cmp p s.1
-    pure ((s.1, m), .list (all m))
+    pure ((s.1, m, s.2.2), .list (all m))
   | .partitionMatch p => do
     let (m, u) ← partitionMatch kind cmp p s.1
-    pure ((s.1, m), .list2 (all m) (all u))
+    pure ((s.1, m, u), .list2 (all m) (all u))
 
 /-- run a history from a given state, collecting the outputs -/
 def runFrom (kind : Kind) (cmp : K → K → Int) (eqVal : V → V → Bool) :
@@ -789,9 +790,9 @@ def cmpDiff7 (a b : Int) : Int := 7 * (a - b)
 def cmpRDiff (a b : Int) : Int := b - a
 def eqInt (a b : Int) : Bool := a == b
 
-/-- run a history on two fresh tables (`NewBST/NewAVL/NewRedBlack(cmp, eqVal)` twice) -/
+/-- run a history on three fresh tables (`NewBST/NewAVL/NewRedBlack(cmp, eqVal)` three times) -/
 def run (kind : Kind) (cmp : K → K → Int) (eqVal : V → V → Bool) (ops : List (Op K V)) :
     Outcome (State K V × List (Out K V)) :=
-  runFrom kind cmp eqVal (nil, nil) ops
+  runFrom kind cmp eqVal (nil, nil, nil) ops
 
 end AlgoVerif.C01
